@@ -37,7 +37,7 @@ pub fn run(run: &mut Run) {
                     let cfg = &pool[(i / 2) as usize % pool.len()];
                     exact_case::<S4>(cfg, &mut r, acc, i, mmax);
                 } else {
-                    let shape = r.usize(6);
+                    let shape = r.usize(crate::shapes::N_SHAPES);
                     crate::with_shape!(shape, exact_random(&mut r, acc, i, mmax));
                 }
             });
@@ -45,7 +45,7 @@ pub fn run(run: &mut Run) {
         for i in my_cases(rc, STREAM_INEXACT, n_inexact, w, nw) {
             guarded(acc, "c06", STREAM_INEXACT, i, |acc| {
                 let mut r = Rng::derive(seed, STREAM_INEXACT, i);
-                let shape = r.usize(6);
+                let shape = r.usize(crate::shapes::N_SHAPES);
                 crate::with_shape!(shape, inexact_case(&mut r, acc, i));
             });
         }
